@@ -17,7 +17,8 @@ EXPLANATION = (
     ' ERR also requires that no Ok(Some(frame)) is reachable from the Err edge of a receive result before the next receive; LBL includes the session-target label of listener-side sessions.'
     ' HEAD: Frame::read_head and Frame::from_buffer agree on header fields and size, and the frame length is not computed at a width where ATTR_LEN + BODY_LEN can wrap (a sum formed at u16 and widened afterwards is not that sum).'
     ' RECV-BUF: every datagram receive site gets a buffer of constant length >= 65527 (the largest UDP payload; 65507 is the IPv4 figure).'
-    ' QBUF: quinn datagram buffers are not sized below one maximum frame on the wire.')
+    ' QBUF: quinn datagram buffers are not sized below one maximum frame on the wire.'
+    ' W1: the frame writers use no partial-write primitive outside a retry loop.')
 RULE_TEXT = "instances = frame locals, receive sites, writer impls, session maps"
 TRUSTED = ["kernel UDP demultiplexing between listener and connected session sockets", "mpsc channels deliver what is sent"]
 NOT_DECIDED = ["delivery as exactly one datagram across the network", "cross-session behaviour under concurrency", "kernel demultiplexing"]
@@ -280,6 +281,9 @@ def run(chk, prog):
     rule_session_label(chk, prog)
     rule_frag_id(chk, prog)
     rule_recv_buf(chk, prog)
+    # a frame written to a stream hop is written completely: no partial-write primitive outside a retry loop in the frame writers
+    from . import shared as _shw
+    _shw.rule_w1(chk, prog, ["src/common/frames.rs", "src/common/udp.rs", "src/common/quic.rs", "src/common/socks.rs"], rule="W1")
     rule_quic_datagram_buffers(chk, prog)
     # the inline (stream) channel cuts frames by Frame::read_head: its length arithmetic must agree with from_buffer and must not wrap
     # for a maximum-size datagram with a long address label
